@@ -20,10 +20,10 @@ checks = {
          "all depth-1 programs in 6 layout styles and all context chains of length 2 (thorough: 3, plus full depth-2 trees) over 59 contexts and 10 leaves are run on a fresh real interpreter and on the reference evaluator R1; value, error and the order of traced host calls must agree",
          "trusts R1 as the specification of the core language; programs R1 declines are skipped and counted; bounded size", "§3 C02"),
  "C09": ("exploration", "small-scope exhaustive enumeration of tail-recursive function shapes: differential against a reference evaluator without tail calls + stack high-water marks over growing depths",
-         "every composition of 9 tail contexts to nesting depth 2 (thorough 3; scope-opening contexts to 4/5), the recursive call also in 9 non-tail positions, x 12 body kinds; value/effects/closure observations equal the reference evaluator for depths 0..10, and the VM stack high-water marks are identical for depths 10/60/300 (thorough 10/100/1000/100000)",
+         "every composition of 9 tail contexts to nesting depth 2 (thorough 3; scope-opening contexts to 4/5), the recursive call also in 9 non-tail positions, x 15 body kinds; value/effects/closure observations equal the reference evaluator for depths 0..10, and the VM stack high-water marks are identical for depths 10/60/300 (thorough 10/100/1000/100000)",
          "trusts R1 as the un-optimised semantics; high-water marks sampled in a pre-call hook via the verif accessor", "§3 C09"),
  "C03": ("exploration", "small-scope exhaustive enumeration of scope skeletons over a two-name pool, differential against a reference evaluator with textbook lexical scopes",
-         "all chains of 27 scope contexts to length 3 (thorough 4) over 6 leaves reading/writing x and y, every binding a distinct integer, evaluated on a fresh real interpreter and on R1; the returned integers identify the binding seen",
+         "all chains of 33 scope contexts to length 3 (thorough 4) over 6 leaves reading/writing x and y, every binding a distinct integer, evaluated on a fresh real interpreter and on R1; the returned integers identify the binding seen",
          "trusts R1's environment model as the definition of lexical scoping; integer bindings only; bounded nesting", "§3 C03"),
  "C16": ("exploration", "small-scope exhaustive enumeration of lazy/strict signatures x usages x call routes, differential against a reference evaluator (memoised thunks over the caller's scope)",
          "all 28 signatures of 1..3 strict/lazy parameters (with/without variadic tail) x all assignments of 7 usages to the lazy ones x 9 call routes x failing/zero/normal argument choices x 0..2 variadic extras; count and order of argument evaluations (host-call trace), values and errors must equal R1's",
